@@ -738,7 +738,11 @@ func runHist(h []int, extra json.RawMessage) (out xplore.Out) {
 					for _, x := range m.coinbase(prog) {
 						paid.Add(paid, new(big.Int).SetUint64(x.Amt))
 					}
-					supplyCheck("after the accepted mutant "+mu.name, paid, nil)
+					fees := new(big.Int).Set(m.Fees)
+					for _, d := range txs {
+						fees.Add(fees, new(big.Int).SetUint64(d.fee))
+					}
+					supplyCheck("after the accepted mutant "+mu.name, paid, fees)
 					out.Prune = true
 					out.Digest = "mutant-accepted/" + fmt.Sprint(h)
 					out.Outcome = "mutant-accepted"
@@ -868,7 +872,7 @@ func main() {
 		plan = append(plan,
 			planItem{spec2, params{E: 2, Epochs: 2, Alphabet: product(all, fullKinds), Final: progOnly(all)}, "E=2, 2 epochs, full product {p1,p2,p3} x {nofee,f1,f2} x {novote,vote,veto}"},
 			planItem{spec2, params{E: 2, Epochs: 3, Alphabet: product(all, [][2]int{{0, 0}, {1, 0}, {2, 1}, {0, 2}}), Final: progOnly(all)}, "E=2, 3 epochs, {p1,p2,p3} x {plain, fee f1, fee f2 + vote, veto}"},
-			planItem{spec3, params{E: 3, Epochs: 2, Alphabet: product(all, [][2]int{{0, 0}, {2, 1}, {1, 2}}), Final: progOnly(all)}, "E=3, 2 epochs, {p1,p2,p3} x {plain, fee f2 + vote, fee f1 + veto}"},
+			planItem{spec3, params{E: 3, Epochs: 2, Alphabet: product(all, [][2]int{{0, 0}, {2, 1}, {1, 2}}), Later: product([]int{0, 2}, [][2]int{{0, 0}, {2, 1}, {1, 2}}), Final: progOnly([]int{0, 2})}, "E=3, 2 epochs, first epoch {p1,p2,p3} x {plain, fee f2 + vote, fee f1 + veto}, second epoch and last block p1/p3 only"},
 		)
 	} else {
 		plan = append(plan,
